@@ -529,7 +529,7 @@ func (pf Producer[T]) GenerateParallel(
 					if opts.CanContinueOnError(err) {
 						return zero, ErrIteratorSkip
 					}
-					if !errors.Is(err, io.EOF) {
+					if !errors.Is(err, io.EOF) || errors.Is(err, ErrRecoveredPanic) {
 						// abort (rather than the end
 						// of the input): stop the
 						// other workers as well.
